@@ -13,7 +13,10 @@
 (*     BuildHandshakeStateWithoutSession before / before and after)        *)
 (*   x server (plain / HelloRetryRequest / HelloRetryRequest with cookie)  *)
 (*   x class of ClientHelloID (parrot, shuffling parrot, randomized,       *)
-(*     custom spec, PSK parrot without / with a cached TLS 1.3 session).   *)
+(*     custom spec, PSK parrot without / with a cached TLS 1.3 session;    *)
+(*     in the "brk" configuration also a PSK parrot whose Config lacks     *)
+(*     OmitEmptyPsk, whose every build fails, and the edits that make the  *)
+(*     hello unbuildable).                                                 *)
 (* Every path is printed as a scenario (SCN) and replayed on the real      *)
 (* library by harness/cmd/uconn; the values of the edits are chosen here.  *)
 (*                                                                         *)
@@ -83,7 +86,7 @@ Swap(s, i, j) == [s EXCEPT ![i] = s[j], ![j] = s[i]]
 SpecExts(c, ord, name, g) ==
   LET b == BaseExts(name, g)
       sh == IF c = "shuffle" /\ ord = 2 THEN Swap(Swap(b, 2, 8), 4, 6) ELSE b   \* GREASE and padding keep their place
-  IN IF c = "psk" THEN sh \o << [type |-> 41, body |-> IF sess THEN Fresh(41, g) ELSE <<>>, omit |-> ~sess] >>
+  IN IF c \in {"psk", "pskstrict"} THEN sh \o << [type |-> 41, body |-> IF sess THEN Fresh(41, g) ELSE <<>>, omit |-> ~sess] >>
      ELSE sh
 EmptyHello == [random |-> <<>>, sid |-> <<>>, suites |-> <<>>]
 PresetHello(g) == [random |-> Fresh(1, g), sid |-> Fresh(2, g), suites |-> SpecSuites]
@@ -124,7 +127,7 @@ Ready == cls # "custom" \/ applied
 
 MBuild(ls) ==
   /\ hello' = PostBuild.hello /\ exts' = PostBuild.exts /\ gen' = PostBuild.gen
-  /\ Build(ls, Ser(PostBuild.hello, PostBuild.exts))
+  /\ IF WillFail THEN BuildFails ELSE Build(ls, Ser(PostBuild.hello, PostBuild.exts))
   /\ Log(Op(IF ls THEN "Build" ELSE "BuildNoSess")) /\ UNCHANGED <<srv, mode, sess, nmut, cfgSNI, order>>
 \* explicit build before the edits (or the decision not to build)
 Pre == /\ Ready /\ step = 0
@@ -182,6 +185,13 @@ MExtRemove ==
   /\ Mut([op |-> "ExtRemove", t |-> RemT(K)])
   /\ ExtRemove(RemT(K))
   /\ exts' = SelectSeq(exts, LAMBDA e : e.type # RemT(K)) /\ UNCHANGED <<cfgSNI, hello>>
+\* edits that leave a hello MarshalClientHello refuses (the content model needs no detail: it is never serialised)
+Breaks == <<"pad2", "extfail", "badbinder", "emptypsk", "shortrandom">>
+MBreak ==
+  \E i \in DOMAIN Breaks :
+  /\ Mut([op |-> "Break", what |-> Breaks[i]])
+  /\ Break(IF Breaks[i] = "shortrandom" THEN <<"random">> ELSE <<"break", Breaks[i]>>)
+  /\ UNCHANGED <<cfgSNI, hello, exts>>
 HasALPN == \E i \in DOMAIN exts : exts[i].type = 16
 MExtALPN ==
   /\ Mut([op |-> "ExtALPN", protos |-> AlpnV(K)])
@@ -192,9 +202,15 @@ MExtALPN ==
 \* ------------------------------------------------------------------ the handshake
 CanStart == (step = 1 /\ mode # "both") \/ step = 2
 MStart ==
-  /\ CanStart
+  /\ CanStart /\ ~WillFail
   /\ hello' = PostBuild.hello /\ exts' = PostBuild.exts /\ gen' = PostBuild.gen
   /\ StartHandshake(Ser(PostBuild.hello, PostBuild.exts))
+  /\ step' = 3 /\ UNCHANGED <<srv, mode, sess, nmut, hist, cfgSNI, order>>
+\* the rebuild fails: Handshake returns the error before anything is written; Hello.Raw is only assigned on success
+MStartFails ==
+  /\ CanStart /\ WillFail
+  /\ hello' = PostBuild.hello /\ exts' = PostBuild.exts /\ gen' = PostBuild.gen
+  /\ StartFails(raw)
   /\ step' = 3 /\ UNCHANGED <<srv, mode, sess, nmut, hist, cfgSNI, order>>
 \* clientHelloMsg.marshal returns original (= Hello.Raw) when it is set
 MSendCH1 == SendCH1(raw, raw) /\ UNCHANGED mvars
@@ -224,10 +240,10 @@ Next == \/ MApplyPreset \/ Pre \/ Post
                      \/ ("RemoveSNI" \in Kinds /\ MRemoveSNI) \/ ("EditSuites" \in Kinds /\ MEditSuites)
                      \/ ("EditSessionId" \in Kinds /\ MEditSessionId) \/ ("ExtInsert" \in Kinds /\ MExtInsert)
                      \/ ("ExtRemove" \in Kinds /\ MExtRemove) \/ ("ExtALPN" \in Kinds /\ MExtALPN)
-                     \/ ("ExtSNIField" \in Kinds /\ MExtSNIField))
-        \/ MStart \/ MSendCH1 \/ MServerFirst \/ MSendCH2 \/ MRefuseRetry \/ MServerSecond \/ MFinish
+                     \/ ("ExtSNIField" \in Kinds /\ MExtSNIField) \/ ("Break" \in Kinds /\ MBreak))
+        \/ MStart \/ MStartFails \/ MSendCH1 \/ MServerFirst \/ MSendCH2 \/ MRefuseRetry \/ MServerSecond \/ MFinish
 
-Terminal == phase \in {"done", "failed"}
+Terminal == phase \in {"done", "failed", "refused"}
 \* scenario emission (once per distinct state; hist is part of the state, every path is a state)
-Emit == Terminal => PrintT(<<"SCN", ToJson([cls |-> cls, server |-> srv, mode |-> mode, sess |-> sess, skipverify |-> SkipVerify, cookie |-> Cookie, ops |-> hist])>>)
+Emit == Terminal => PrintT(<<"SCN", ToJson([cls |-> cls, server |-> srv, mode |-> mode, sess |-> sess, skipverify |-> SkipVerify, strictpsk |-> (cls = "pskstrict"), cookie |-> Cookie, ops |-> hist])>>)
 =============================================================================
